@@ -43,6 +43,9 @@ func (r *Rng) Bytes(n int) []byte {
 type Out struct {
 	w  *bufio.Writer
 	id int
+	// cases that ended in a hang or a crash of the child process cost tens of seconds each: after a few of them the
+	// generation stops (what was printed so far carries the failing observations)
+	stuck int
 }
 
 // emit executes op on the real code and prints the line
@@ -51,6 +54,12 @@ func (o *Out) emit(prop string, op string, args ...string) {
 	o.id++
 	fmt.Fprintf(o.w, "%d %s %s %s => %s\n", o.id, prop, op, strings.Join(args, " "), obs)
 	o.w.Flush()
+	if strings.HasPrefix(obs, "hang") || strings.HasPrefix(obs, "crash") || strings.Contains(obs, "deadlock-or-hang") {
+		o.stuck++
+		if o.stuck >= 4 {
+			os.Exit(0)
+		}
+	}
 }
 
 // execOp dispatches an operation line to the code under test
